@@ -42,7 +42,7 @@ Programs == {[kinds |-> ks, style |-> s, pre |-> h[1], post |-> h[2], retErr |->
 \* C07 (static): an error-capable callee is never wired into a function without error result -
 \* such programs do not exist (the tool rejects them; judged by case replay)
 Legal(p) == /\ (NeedsErr(p.kinds, p.pre, p.post) => p.retErr)
-            /\ (p.style = "argrev" => ~p.pre.on /\ ~p.post.on /\ "arg" \notin p.kinds)
+            /\ (p.style = "argrev" => ~p.pre.on /\ ~p.post.on /\ "arg" \notin p.kinds /\ "argnest" \notin p.kinds)
 
 VARIABLES prog, phase, pending, failed, calls
 vars == <<prog, phase, pending, failed, calls>>
